@@ -145,6 +145,10 @@ DefSanityEV ==
      /\ Broken([D EXCEPT !.dtype = "ID", !.codes = <<"AB">>, !.hasExt = TRUE], V("AC", <<65, 67>>), [S EXCEPT !.excl = TRUE]) = {}
      /\ Broken([D EXCEPT !.dtype = "DT", !.max = 8], V("20230229", <<50, 48, 50, 51, 48, 50, 50, 57>>), S) = {<<"type", "8">>}
      /\ Broken([D EXCEPT !.dtype = "AN", !.max = 35], V("2359", <<50, 51, 53, 57>>), [S EXCEPT !.tl = <<"D8">>]) = {<<"qualified_type", "8">>}
+     /\ Broken([D EXCEPT !.dtype = "AN", !.max = 35], V("240101-240229", <<50, 52, 48, 49, 48, 49, 45, 50, 52, 48, 50, 50, 57>>),
+               [S EXCEPT !.tl = <<"RD8">>]) = {<<"qualified_type", "8">>}
+     /\ Broken([D EXCEPT !.dtype = "AN", !.max = 35], V("20240101-", <<50, 48, 50, 52, 48, 49, 48, 49, 45>>),
+               [S EXCEPT !.tl = <<"RD8">>]) = {<<"qualified_type", "8">>}
      /\ Clause({}, [res |-> "true", codes |-> <<>>]) = ""
      /\ Clause({<<"code", "7">>}, [res |-> "false", codes |-> <<"7">>]) = ""
      /\ Clause({<<"code", "7">>}, [res |-> "true", codes |-> <<"7">>]) = "flag"
